@@ -345,6 +345,14 @@ class Check:
             if rec is None:
                 continue
             kind = v.get('v')
+            for kid in v.get('known', []):
+                if kid.split('-')[0] != self.pid:
+                    continue        # a recognised deviation that belongs to another property's facet
+                f = next((x for x in self.known if x.get('id') == kid), None)
+                if f is None:
+                    self.violations.append((rec, {'v': 'mismatch', 'what': 'deviation %s predicted by the specification is not a registered known finding' % kid}))
+                else:
+                    self.known_hits.setdefault(kid, [f, 0])[1] += 1
             if kind == 'ok':
                 self.judged(rec, n=v.get('n', 1))
             elif kind == 'unjudgeable':
